@@ -56,7 +56,7 @@ def _build(names, circular, key0=0):
            selector_only=True,
            must_cover=["linear", "circular", "unknown rejected", "n=1"],
            bounds={"quick": dict(nmax=4, alphabet=["DA", "DT", "DG", "DC", "DA5", "DC3", "DG3", "DT5", "XX"], key0=[0, 1]),
-                   "thorough": dict(nmax=5, alphabet=ALL12 + ["XX", "A"], key0=[0, 1, 10])},
+                   "thorough": dict(nmax=4, alphabet=ALL12 + ["XX", "A"], key0=[0, 1, 10])},
            budget={"quick": 200, "thorough": 1500})
 def complement(sx, B):
     """Real complement_dsDNA on a strand built with the real linear builder: length n symbolic in 1..nmax, every residue name a
